@@ -857,3 +857,123 @@ pub fn session_isolation(v: &Verdicts, secure: bool, rng: &mut Rng, rounds: usiz
     }
     st
 }
+
+// ---------------------------------------------------------------- a TCP subscriber that falls behind
+/// What happened to one TCP session that subscribed to a key and then did not read its socket while `writes` values of
+/// `value_len` bytes were committed to that key (the notifications fill the socket buffers), and read again afterwards.
+pub struct SlowSubscriber {
+    /// numbers n of the `changed-version k <version> w<n>-...` notifications received, in order of arrival
+    pub received: Vec<u64>,
+    pub writes: u64,
+    /// the server ended the connection (EOF / reset seen by the client) before the client closed it
+    pub ended_by_server: bool,
+    /// `$connections` of the database as another session reads it: before the subscriber came, while it was connected,
+    /// after it was gone (its connection ended by the server, or closed by the client) and the node had time to notice
+    pub count_before: String,
+    pub count_with: String,
+    pub count_after: String,
+    /// watcher entries left for the key after the session was gone
+    pub watchers_left: usize,
+    pub panics: Vec<String>,
+    /// a later session is served (get of the key answers the last value)
+    pub served_afterwards: bool,
+}
+
+fn read_connections(live: &LiveNode, db: &str, tok: &str) -> String {
+    // read in-process: a session of its own would change the count it reads
+    let dbs = live.dbs.map.read().unwrap();
+    let _ = tok;
+    match dbs.get(db) {
+        Some(d) => d.get_value("$connections".to_string()).map(|v| v.value).unwrap_or("0".into()),
+        None => "?".into(),
+    }
+}
+
+pub fn slow_tcp_subscriber(dir: &str, writes: usize, value_len: usize) -> Option<SlowSubscriber> {
+    let live = LiveNode::start(dir, false)?;
+    take_panics();
+    let count_before = read_connections(&live, "db", "tok");
+    let mut sub = TcpClient::connect(&live.tcp).ok()?;
+    // a small receive buffer on the client side: the window closes early
+    {
+        use std::os::unix::io::AsRawFd;
+        let sz: libc::c_int = 4096;
+        unsafe {
+            libc::setsockopt(sub.s.as_raw_fd(), libc::SOL_SOCKET, libc::SO_RCVBUF, &sz as *const _ as *const libc::c_void, std::mem::size_of::<libc::c_int>() as libc::socklen_t);
+        }
+    }
+    sub.send(b"use-db db tok\n");
+    let _ = sub.read_until("ok", Duration::from_secs(10));
+    sub.send(b"watch slowkey\n");
+    let _ = sub.read_until("ok", Duration::from_secs(10));
+    let count_with = read_connections(&live, "db", "tok");
+    // the writer: an in-process session (what another client's handler thread does)
+    let mut w = Session::new();
+    w.call(&live.dbs, "use-db db tok");
+    let pad = "x".repeat(value_len);
+    for n in 0..writes {
+        w.call(&live.dbs, &format!("set slowkey w{}-{}", n, pad));
+        w.drain();
+        if n % 16 == 15 {
+            std::thread::sleep(Duration::from_millis(1));
+        }
+    }
+    // let the handler thread push what it can
+    std::thread::sleep(Duration::from_millis(300));
+    // the subscriber reads again, until the server ends the connection or nothing has arrived for a while
+    let mut received = vec![];
+    let mut ended_by_server = false;
+    let mut idle = 0;
+    loop {
+        match sub.read_until("\u{1}never\u{1}", Duration::from_millis(400)) {
+            Ok(_) => {}
+            Err((eof, lines)) => {
+                if lines.is_empty() {
+                    idle += 1;
+                } else {
+                    idle = 0;
+                }
+                for l in lines {
+                    if let Some(rest) = l.strip_prefix("changed-version slowkey ") {
+                        if let Some(v) = rest.split(' ').nth(1).and_then(|x| x.strip_prefix('w')).and_then(|x| x.split('-').next()).and_then(|x| x.parse::<u64>().ok()) {
+                            received.push(v);
+                        }
+                    }
+                }
+                if eof {
+                    ended_by_server = true;
+                    break;
+                }
+                if idle >= 4 {
+                    break;
+                }
+            }
+        }
+    }
+    drop(sub);
+    w.disconnect(&live.dbs);
+    // the node notices a closed connection at its next read
+    let mut count_after = String::new();
+    for _ in 0..100 {
+        count_after = read_connections(&live, "db", "tok");
+        if count_after == count_before {
+            break;
+        }
+        std::thread::sleep(Duration::from_millis(50));
+    }
+    let watchers_left = {
+        let dbs = live.dbs.map.read().unwrap();
+        let d = dbs.get("db").unwrap();
+        let wm = d.watchers.map.read().unwrap();
+        wm.get("slowkey").map(|v| v.len()).unwrap_or(0)
+    };
+    let served_afterwards = match TcpClient::connect(&live.tcp) {
+        Ok(mut c) => {
+            c.send(b"use-db db tok\nget slowkey\n");
+            c.read_until("value ", Duration::from_secs(10)).is_ok()
+        }
+        Err(_) => false,
+    };
+    let panics: Vec<String> = take_panics().into_iter().filter(|p| p.contains("/repo/") || p.contains("nun")).collect();
+    Some(SlowSubscriber { received, writes: writes as u64, ended_by_server, count_before, count_with, count_after, watchers_left, panics, served_afterwards })
+}
